@@ -38,8 +38,9 @@
           validator set of an accepted header lists a key" (needed in the model:
           [C09X_restart_total_over_reachable_x_refuted]; in Go non-zero power implies a key);
       (b) [vwf ivs]: the initial validator set additionally lists a key (model only, same reason);
-      (c) the boolean side condition [lph_okb] on the state machine's OWN proposed header (the kernel files it
-          without any of the checks of HandleProposedHeader: known finding local-ph-unchecked).  Needed for
+      (c) the boolean side condition [lph_okb] on the state machine's OWN proposed header when the kernel FILES
+          it ([act_ph_applies]; a header that is dropped needs nothing) - the kernel files it without any of the
+          checks of HandleProposedHeader: known finding local-ph-unchecked.  Needed for
           totality in its components "next set has power" / "own set has power when the header is for the
           voting height" / (model only) "next set lists a key": [C09X_local_ph_side_condition_needed];
           needed for the invariant INV in its component "block hash correct":
@@ -221,7 +222,17 @@ Theorem C09X_mstep_total_in_good_states : forall ih ivs s o,
 Proof. exact mstep_total_K. Qed.
 Print Assumptions C09X_mstep_total_in_good_states.
 
-(** the closures of C10Resume and C05Act are contained / contain *)
+(** Ok, or one of the named sites - nothing else *)
+Theorem C09X_mstep_ok_or_named_site_partial : forall ih ivs s o,
+  1 <= ih -> vwf ivs -> mreachable_a ih ivs s -> crash_adm s o ->
+  (mstep_panic_site s o = None /\ exists s' r io, mstep s o = Ok (s', r, io)) \/
+  (exists site, mstep_panic_site s o = Some site /\ mstep s o = Panic site /\
+     In site [site_replay_earlier; site_replay_fuel; site_enter_not_found; site_enter_no_header;
+              site_no_keys; site_nil_key; site_no_action]).
+Proof. exact mstep_ok_or_named_site. Qed.
+Print Assumptions C09X_mstep_ok_or_named_site_partial.
+
+(** the closure of C10Resume is contained *)
 Theorem C09X_closure_extends_reachable_g : forall ih ivs k,
   reachable_g ih ivs k -> exists s, mreachable_a ih ivs s /\ ms_k s = k.
 Proof. exact reachable_g_mreachable_a. Qed.
@@ -275,11 +286,12 @@ Print Assumptions C09X_message_only_appends_writes.
 
 (** the hypotheses of [C09X_mstep_total_partial] hold on a history with a proposed header, an entrance with a
     key, the local prevote and the local precommit (which commits the block), a crash in the middle of an
-    operation, a restart, another entrance with the key, the local validator's own proposed header, two reads *)
+    operation, a restart, another entrance with the key, a local proposed header that is dropped (and need not satisfy anything), the
+    local validator's own proposed header (filed in the voting view), two reads *)
 Theorem C09X_hypotheses_satisfiable :
   vwf ex_vs /\ mreachable_a 1 ex_vs x_state /\
   st_nhr (ms_k x_state) = (2, 1, 1, 0) /\ List.length (st_hdrs (ms_k x_state)) = 1%nat /\
-  List.length (v_phs (k_vot (ms_k x_state))) = 0%nat /\
+  v_phs (k_vot (ms_k x_state)) = [x_ph2] /\
   smm_key (m_sm (ms_m x_state)) = Some 7.
 Proof. exact x_state_reachable. Qed.
 Print Assumptions C09X_hypotheses_satisfiable.
